@@ -180,6 +180,18 @@ CLAIMED: dict[str, tuple[str, str, str, str]] = {
             "LOC = non-blank non-comment lines from header to last line (Rust: struct + all impls); TS "
             "constructors/accessors and Rust associated functions are not generated (undocumented).",
             TECH),
+    "C17": ("DESIGN.md §5 C17",
+            "spec/RustSafety.tla enumerates all 6 192 sites (module kind x function kind x <=2 enclosing loops / "
+            "closures / offloading wrappers x 9 risky calls), defines the verdict and expected count of the "
+            "owning linter for every option setting, and checks the test-code, switch-independence and async laws "
+            "on every site; sites are rendered 300 per file (self-checked with tree-sitter) and linted under "
+            "every option setting (4 + 16 + 16) with alternating section spelling; additionally twin files with "
+            "byte-identical layout, one with and one without the test attributes, are linted in one run; "
+            "RustSafetyTrace.tla judges Missed / Spurious / Duplicate / WrongPosition per site.",
+            "No verdict for clones behind a closure inside a loop and let-bound clones inside a loop; nested fn "
+            "items and #[tokio::test] are not generated; quick tier samples 2 400 sites and a quarter of the "
+            "clone/blocking option settings per file.",
+            TECH),
 }
 
 REASON_NOT_YET = ("no check registered yet in this build; the TLA+ technique applies (see DESIGN.md §5) "
